@@ -41,7 +41,11 @@ def baseline():
 def run(tier, seed, t0):
     vlib.build_harness()
     mc = [vlib.run_mc("MC_Conn", "MC_Conn_crash.cfg", workers=8, timeout=1800, xmx="12g"),
-          vlib.run_mc("MC_Conn", "MC_Conn_crash_bug.cfg", workers=2, expect_violation="Released")]
+          vlib.run_mc("MC_Conn", "MC_Conn_crash_bug.cfg", workers=2, expect_violation="Released"),
+          # liveness under fairness: whoever waits is eventually released (and is not, if senders are kept)
+          vlib.run_mc("MC_Conn", "MC_Conn_live_q.cfg" if tier == "quick" else "MC_Conn_live.cfg", workers=8,
+                      timeout=1800, xmx="8g"),
+          vlib.run_mc("MC_Conn", "MC_Conn_live_bug.cfg", workers=2, expect_violation="EveryCallerReleased")]
     total, writes, hs = baseline()
     rng = random.Random("c05-%d" % seed)
     scn = scenarios.crash_scenarios(total, writes, hs, tier, rng)
